@@ -2165,7 +2165,8 @@ def lex_tokens(line):
     match = RE_STRING.match(line.contents)
     if match is not None:
         value = match.group(1)
-        value = value.encode('utf-8').decode('unicode_escape')
+        # process backslash escapes without mangling non-ASCII characters
+        value = value.encode('latin-1', 'backslashreplace').decode('unicode_escape')
         tokens = ['string', value]
         return LineTokens(line, tokens)
 
